@@ -176,7 +176,14 @@ class LLHandle:
         self.data, self.pw, self.caching = data, pw, caching
         self.pdoc = PDFDocument(PDFParser(io.BytesIO(data)), password=pw, caching=caching)
         self.rsrc = PDFResourceManager(caching=caching)
-        self.dev = PDFPageAggregator(self.rsrc, laparams=la_of(la) or LAParams())
+        outer = self
+
+        class Tee(PDFPageAggregator):
+            def end_page(self, page):                       # glyphs in paint order, before layout analysis
+                outer.glyphs = flat_glyphs(self.cur_item)
+                return super().end_page(page)
+        self.glyphs: List[str] = []
+        self.dev = Tee(self.rsrc, laparams=la_of(la) or LAParams())
         self.interp = PDFPageInterpreter(self.rsrc, self.dev)
         self.it = enumerate(PDFPage.create_pages(self.pdoc))
         self.pagenos = pages
@@ -192,6 +199,35 @@ class LLHandle:
     def state(self) -> Dict[str, List[int]]:
         return {"objs": sorted(self.pdoc._cached_objs), "pobjs": sorted(self.pdoc._parsed_objs),
                 "fonts": sorted(k for k in self.rsrc._cached_fonts)}
+
+
+def flat_glyphs(item) -> List[str]:
+    from pdfminer.layout import LTChar
+    out: List[str] = []
+
+    def rec(it):
+        if isinstance(it, LTChar):
+            t = it.get_text()
+            if it.fontname.startswith("GenCJK"):
+                out.append("?")
+            elif t.startswith("(cid:"):
+                out.append("c" + t[5:-1])
+            else:
+                out.append(".".join(str(ord(ch)) for ch in t))
+        elif hasattr(it, "__iter__"):
+            for c in it:
+                rec(c)
+    rec(item)
+    return out
+
+
+def collapse(gs: List[str]) -> str:
+    res: List[str] = []
+    for g in gs:
+        if g == "?" and res and res[-1] == "?":
+            continue
+        res.append(g)
+    return ",".join(res) if res else "-"
 
 
 def canon_obj(o, depth: int = 0) -> Any:
@@ -286,6 +322,8 @@ def snapshot() -> Dict[str, Any]:
     s["enc"] = {n: _p(getattr(EncodingDB, n)) for n in tabs}
     s["enc"]["map"] = _h(sorted((k, [n for n in tabs if getattr(EncodingDB, n) is v])
                                 for k, v in EncodingDB.encodings.items()))
+    s["encsum"] = [sum((k * 65537 + ord(v)) * (k + 7) for k, v in getattr(EncodingDB, n).items()) % 2305843009213693951
+                   for n in tabs]
     s["cmaps"] = {k: _p((v.code2cid, dict(v.attrs))) for k, v in CMapDB._cmap_cache.items()}
     s["umaps"] = {k: _p([(u.cid2unichr, dict(u.attrs)) for u in v]) for k, v in CMapDB._umap_cache.items()}
     s["lits"] = set(PSLiteralTable.dict)
@@ -483,7 +521,7 @@ class Exec:
         self.docs, self.base = docs, base
         self.handles: Dict[int, Any] = {}
         self.failure: Optional[Tuple[int, str, Any, Any, Dict[str, Any]]] = None
-        self.observed: List[str] = []
+        self.observed: List[Dict[str, Any]] = []
 
     def fail(self, idx: int, what: str, exp: Any, got: Any, tags: Dict[str, Any]) -> None:
         if self.failure is None:
@@ -497,14 +535,15 @@ class Exec:
         b = self.base[di][o["la"]]
         return "".join(b["singles"][k] for k in sel_pages(len(b["singles"]), o["pages"]))
 
-    def run_op(self, idx: int, op: List[Any]) -> str:
-        """Returns the observed-state line (compared with the model's line)."""
+    def run_op(self, idx: int, op: List[Any]) -> Dict[str, Any]:
+        """Returns the observed state effects (compared with the model's reply)."""
         kind = op[0]
         docs = self.docs
         before = snapshot()
         doc: Optional[P.Doc] = None
         extra: Tuple[str, ...] = ()
-        obs = "-"
+        obs = None
+        glyphs = None
         tags: Dict[str, Any] = {"op": kind}
         try:
             if kind == "text":
@@ -559,6 +598,7 @@ class Exec:
                     if hk == "ll":
                         r = hd.next()
                         got = None if r is None else r[1]
+                        glyphs = "done" if r is None else "page " + collapse(hd.glyphs)
                         obs = self.ll_state(hd)
                     else:
                         try:
@@ -593,9 +633,8 @@ class Exec:
         bad2 = allowed_growth(doc, before, after, extra)
         if bad2 is not None:
             self.fail(idx, "tables_inv: " + bad2[0], repr(bad2[1])[:300], repr(bad2[2])[:300], dict(tags, tables=True))
-        g = "cm+" + ",".join(sorted(set(after["cmaps"]) - set(before["cmaps"]))) + \
-            " um+" + ",".join(sorted(set(after["umaps"]) - set(before["umaps"])))
-        return obs + " " + g
+        return {"caches": obs, "glyphs": glyphs, "cm": sorted(after["cmaps"]), "um": sorted(after["umaps"]),
+                "cm0": sorted(before["cmaps"]), "um0": sorted(before["umaps"]), "enc": after["encsum"]}
 
     @staticmethod
     def ll_state(hd: LLHandle) -> str:
@@ -753,9 +792,165 @@ def run_pool(ctx: C.Ctx, seed: str, size: int, nhist: int, hist_len: int) -> Non
         model_check(ctx, seed, docs, ops, ex)
 
 
+KIND = {"std14": 0, "type1": 0, "truetype": 0, "type3": 0, "cid-identity": 1, "cid-predef": 2}
+
+
+class NameIds:
+    def __init__(self) -> None:
+        self.ids: Dict[str, int] = {}
+
+    def get(self, name: Optional[str]) -> int:
+        if not name:
+            return 0
+        return self.ids.setdefault(name, len(self.ids) + 1)
+
+
+def fontspec_tokens(fd: P.FontDesc, cm: NameIds, um: NameIds, gidx: Dict[str, int]) -> List[int]:
+    t: List[int] = [KIND[fd.kind], fd.base, len(fd.diffs)]
+    for code, g in fd.diffs:
+        t += [code, gidx.get(g, 99999)]
+    t += [1 if "ToUnicode" in fd.obj else 0, len(fd.tounicode)]
+    for cid, text in fd.tounicode:
+        t += [cid, len(text)] + [ord(ch) for ch in text]
+    t += [cm.get(fd.cmap), um.get(fd.umap), cm.get(fd.usecmap), len(fd.reads)] + list(fd.reads)
+    return t
+
+
+def show_codes(fd: P.FontDesc, s: bytes, cm: NameIds) -> List[int]:
+    if fd.kind == "cid-predef":
+        return [cm.get(fd.cmap)]          # synthetic CMap content on the model side: one code that it maps
+    if fd.kind == "cid-identity":
+        return [s[i] * 256 + s[i + 1] for i in range(0, len(s) - 1, 2)]
+    return list(s)
+
+
+def doc_tokens(d: P.Doc, cm: NameIds, um: NameIds, gidx: Dict[str, int]) -> List[int]:
+    objnums = sorted(set(d.all_objnums) | ({d.objstm_id} if d.objstm else set()))
+    t: List[int] = [len(objnums)]
+    for n in objnums:
+        t += [n, d.objstm_id if n in d.objstm else 0]
+    t.append(len(d.fonts))
+    for n, fd in sorted(d.fonts.items()):
+        t.append(n)
+        t += fontspec_tokens(fd, cm, um, gidx)
+    t += [len(d.open_reads)] + list(d.open_reads)
+    t.append(d.npages)
+    for k in range(d.npages):
+        t += [len(d.walk_reads[k])] + d.walk_reads[k]
+        pf = d.page_fonts[k]
+        t.append(len(pf))
+        for _nm, oid, fd in pf:
+            if oid:
+                t += [0, oid]
+            else:
+                t.append(1)
+                t += fontspec_tokens(fd, cm, um, gidx)
+        t += [len(d.proc_reads[k])] + d.proc_reads[k]
+        t.append(len(d.page_shows[k]))
+        for fd, s in d.page_shows[k]:
+            idx = next(i for i, (_n, _o, f) in enumerate(pf) if f is fd)
+            codes = show_codes(fd, s, cm)
+            t += [idx, len(codes)] + codes
+    return t
+
+
+_GIDX: Optional[Dict[str, int]] = None
+
+
+def glyph_index() -> Dict[str, int]:
+    global _GIDX
+    if _GIDX is None:
+        from translate import gen_c12
+        _GIDX = {n: i for i, n in enumerate(gen_c12.glyph_names())}
+    return _GIDX
+
+
+def model_lines(docs: List[P.Doc], ops: List[List[Any]], cm0: List[str], um0: List[str]):
+    cm, um = NameIds(), NameIds()
+    gidx = glyph_index()
+    doc_lines = ["doc %d %s" % (d.idx, " ".join(map(str, doc_tokens(d, cm, um, gidx)))) for d in docs]
+    op_lines: List[str] = []
+    for op in ops:
+        k = op[0]
+        if k in ("text", "pages", "tofp", "single"):
+            o = op[2]
+            sel = [op[3]] if k == "single" else (o["pages"] or [])
+            op_lines.append("extract %d %d %d %s" % (op[1], int(o["caching"]), len(sel), " ".join(map(str, sel))))
+        elif k == "open":
+            o = op[4]
+            sel = o["pages"] or []
+            op_lines.append("open %d %d %d %d %s" % (op[1], op[3], int(o["caching"]), len(sel), " ".join(map(str, sel))))
+        elif k in ("next", "close"):
+            op_lines.append("%s %d" % (k, op[1]))
+        elif k == "cmapparse":
+            op_lines.append("parsecmap %d 2 33440 7000 65 7004" % cm.get(op[1]))
+    for n in cm0:
+        cm.get(n)
+    for n in um0:
+        um.get(n)
+    ex_cm = sorted(i for n, i in cm.ids.items() if cmap_exists(n))
+    ex_um = sorted(i for n, i in um.ids.items() if cmap_exists("to-unicode-" + n))
+    head = ["world %d %s %d %s" % (len(ex_cm), " ".join(map(str, ex_cm)), len(ex_um), " ".join(map(str, ex_um)))]
+    pre_c = sorted(cm.ids[n] for n in cm0)
+    pre_u = sorted(um.ids[n] for n in um0)
+    head += doc_lines
+    head.append("preload %d %s %d %s" % (len(pre_c), " ".join(map(str, pre_c)), len(pre_u), " ".join(map(str, pre_u))))
+    return head, op_lines, cm, um
+
+
 def model_check(ctx: C.Ctx, seed: str, docs, ops, ex) -> None:
-    """Correspondence with the Lean model (filled in by step B)."""
-    return
+    """Correspondence: the compiled Lean model runs the same history on the abstract documents;
+    cache key sets, shared-table key sets, encoding-table checksums and decoded glyph text must
+    agree with what the implementation showed after every operation."""
+    if ctx.driver is None or ex is None or not ex.observed:
+        return
+    first = ex.observed[0]
+    head, op_lines, cm, um = model_lines(docs, ops, first["cm0"], first["um0"])
+    replies = ctx.driver.ask([ln.rstrip() for ln in head + op_lines])
+    for ln, r in zip(head, replies):
+        if not r.startswith("ok"):
+            ctx.disagree("c12.setup", {"pool": seed, "line": ln[:200]}, "ok", r)
+            return
+    replies = replies[len(head):]
+    for i, (op, obs, rep) in enumerate(zip(ops, ex.observed, replies)):
+        inp = {"pool": seed, "size": len(docs), "ops": ops[:i + 1]}
+        if rep == "bad-op":
+            ctx.disagree("c12.op", inp, "accepted", "bad-op")
+            return
+        parts = [p.strip() for p in rep.split("#")]
+        fields = dict(kv.split("=", 1) for kv in parts[-1].split() if "=" in kv)
+        want_cm = ",".join(map(str, sorted(cm.ids[n] for n in obs["cm"] if n in cm.ids)))
+        want_um = ",".join(map(str, sorted(um.ids[n] for n in obs["um"] if n in um.ids)))
+        unknown = [n for n in obs["cm"] if n not in cm.ids] + [n for n in obs["um"] if n not in um.ids]
+        if unknown:
+            ctx.disagree("c12.tables", inp, "cache keys " + repr(unknown), "not named by any document of the pool")
+            return
+        if fields.get("cm") != want_cm or fields.get("um") != want_um:
+            ctx.disagree("c12.tables", inp, f"cm={want_cm} um={want_um}", f"cm={fields.get('cm')} um={fields.get('um')}")
+            return
+        if fields.get("enc") != ",".join(map(str, obs["enc"])):
+            ctx.disagree("c12.enc", inp, ",".join(map(str, obs["enc"])), fields.get("enc"))
+            return
+        ctx.branch("tie:tables")
+        if obs["caches"] is not None:
+            got = " ".join(f"{k}={fields.get(k, '')}" for k in ("objs", "pobjs", "fonts"))
+            if got != obs["caches"]:
+                ctx.disagree("c12.caches", inp, obs["caches"], got)
+                return
+            ctx.branch("tie:caches")
+        if obs["glyphs"] is not None:
+            mg = parts[0]
+            if mg.startswith("page "):
+                mg = "page " + collapse(mg[5:].split(",") if mg[5:] != "-" else [])
+            if mg != obs["glyphs"]:
+                ctx.disagree("c12.glyphs", inp, obs["glyphs"], mg)
+                return
+            ctx.branch("tie:glyphs")
+        if parts[0].startswith("pages ") and len(parts) >= 3:
+            if parts[0][6:] != parts[1][5:]:
+                ctx.disagree("c12.model-vs-spec", inp, parts[1], parts[0])     # model != its own specification
+                return
+            ctx.branch("tie:model=spec")
 
 
 def run_corpus(ctx: C.Ctx) -> None:
